@@ -16,6 +16,6 @@ CFG = {
         "the leaving scenario follows the property's script (Left recorded, then key-store Reset); whether executeAndFinishDKG ever hands a leaver's result over is C07/C08 matter",
         "'resumes producing beacons' is checked on the snapshots that load: a fresh appendStore over the reloaded chain accepts round last+1",
     ],
-    "level_text": "C13_chain / C13_chain_restarts / C13_chain_linked: for every recovered gap-free chain database, every list of attempted Puts and every crash point, over any number of process lifetimes, the chain store is again a gap-free (and, chained, linked) chain from round 0 that extends the previous one by exactly the beacons whose transaction completed. C13_dkgdb_atomic / C13_dkgdb: for every well-formed history and every crash point (torn ones included) dkg.db holds what it holds after a whole number of events: the completed record is absent or one whole epoch, the staged record is that record or a state staged on top of it - stated over the transaction structure of SaveCurrent/SaveFinished regenerated from the source (C13_shape_obligation). The statement of the property for the triple (dkg.db, group file, share) is kept as C13_files_full and REFUTED by the faithful model (C13_files_refuted) with one witness per crash class: database ahead of the files, group e+1 with share e, empty/torn file, half-done Reset of a leaving node; C13_files_partial proves consistency and restart at every event boundary, and C13_files_classified proves that every other crash point of every well-formed history falls in exactly those named classes. Every run replays the whole history (first DKG, 5+2 rounds with refused duplicate/gap, resharing, leaving) on the real key store, DKG store, beacon process and bolt chain store, reloads a copy of the directories after every persistence call and at the created-empty / torn / half-reset points with fresh objects, compares with the model inside Coq, counts committed write transactions per call, and sweeps every byte prefix of the group and share files through the real loaders.",
+    "level_text": "C13_chain / C13_chain_restarts / C13_chain_linked: for every recovered gap-free chain database, every list of attempted Puts and every crash point, over any number of process lifetimes, the chain store is again a gap-free (and, chained, linked) chain from round 0 that extends the previous one by exactly the beacons whose transaction completed. C13_served_persisted: for every Put list offered to callbackStore(appendStore(schemeStore(bolt))) and every crash point between the visible events, every beacon already handed to a callback (PublicRandStream, SyncChain, hooks) is in the database the restart finds - stated over the order of callbackStore.Put read from the source (write, error returns, then dispatch). C13_dkgdb_atomic / C13_dkgdb: for every well-formed history and every crash point (torn ones included) dkg.db holds what it holds after a whole number of events: the completed record is absent or one whole epoch, the staged record is that record or a state staged on top of it - stated over the transaction structure of SaveCurrent/SaveFinished regenerated from the source (C13_shape_obligation). The statement of the property for the triple (dkg.db, group file, share) is kept as C13_files_full and REFUTED by the faithful model (C13_files_refuted) with one witness per crash class: database ahead of the files, group e+1 with share e, empty/torn file, half-done Reset of a leaving node; C13_files_partial proves consistency and restart at every event boundary, and C13_files_classified proves that every other crash point of every well-formed history falls in exactly those named classes. Every run replays the whole history (first DKG, 5+2 rounds with refused duplicate/gap, resharing, leaving) on the real key store, DKG store, beacon process and bolt chain store, reloads a copy of the directories after every persistence call and at the created-empty / torn / half-reset points with fresh objects, compares with the model inside Coq, counts committed write transactions per call, registers a subscriber on the real callback store and checks at every snapshot - including one taken INSIDE every Put, before the bolt transaction, and after a duplicate, a gap and an injected write failure - that everything the subscriber received is in the reloaded store, and sweeps every byte prefix of the group and share files through the real loaders.",
     "level_note": "Kernel + vm_compute; no axioms. bbolt's atomicity and the 'prefix' model of a torn write are assumed; the order of the persistence calls is read from the source by a syntactic translator. The full statement about the file triple does not hold on this tree: the refutation witnesses are replayed on the real code on every run and listed as known findings.",
 }
